@@ -4,10 +4,10 @@
 // taken from the implementation: sequences of bytes in, mathematical values out.
 // ======================================================================================
 
-use crate::v2::{AddressFamily, Command, Protocol, Version};
-use crate::v2::ParseError as V2Error;
-use crate::v2::Addresses as V2Addresses;
-use crate::v2::Header as V2Header;
+pub use crate::v2::{AddressFamily, Command, Protocol, Version};
+pub use crate::v2::ParseError as V2Error;
+pub use crate::v2::Addresses as V2Addresses;
+pub use crate::v2::Header as V2Header;
 
 /// The 12-byte v2 signature  \r \n \r \n \0 \r \n Q U I T \n
 pub open spec fn v2_sig() -> Seq<u8> {
